@@ -25,7 +25,8 @@ RULE = ("Programs are discovered at run time (every CPUDispatcher and lazycompil
         "where the recorded unrounded value is within 1e-6 of a half, MK flags equal unless |p-0.05|<1e-9. The SciPy special functions "
         "bound into nopython code are compared bit for bit with scipy.special. A case counts as a disagreement check when both sides ran; "
         "non-trivial = every such case; distinct by content hash. "
-        " Added after the fourth seeded round: A third of the gufunc cases pass every array argument as a strided view.")
+        " Added after the fourth seeded round: A third of the gufunc cases pass every array argument as a strided view. "
+        " Added after the fifth seeded round: Sub-check 'large': inputs of >= 2^20 cells for five programs (compiled vs interpreted on integer data to the last float32 digits; repeated compiled runs agree).")
 ASSUME = ["the interpreted twin is the semantics of the source (CPython + NumPy + SciPy)",
           "twin runs that overflow a fixed-width NumPy integer are out of the property's domain and counted (never judged)"]
 
